@@ -187,15 +187,21 @@ func c18Machine(seed uint64, budget int, lg *caseLog) c18Report {
 			var pan interface{}
 			var stack string
 			var perr error
-			func() {
+			cold := clone.Cold
+			hung, hstack := runOrHang(func() {
 				defer func() {
 					if x := recover(); x != nil {
 						pan = x
 						stack = string(debug.Stack())
 					}
 				}()
-				_, perr = clone.Cold.ProcessOperation(mu.Op, true)
-			}()
+				_, perr = cold.ProcessOperation(mu.Op, true)
+			})
+			if hung {
+				report("C18/processing-never-ends:Machine.ProcessOperation", fmt.Sprintf("Machine.ProcessOperation does not return for %s of a %s operation: its goroutine is parked on a mutex for good (after the earlier operations fed to this machine)", mu.Label, rc.Op.Type), map[string]interface{}{"step": idx, "operation_type": string(rc.Op.Type), "mutation": mu.Label, "operations_fed_to_this_machine_before": sinceClone - 1, "stack": trunc(hstack, 1800)})
+				clone = nil // the machine (and its database handle) cannot be used or closed any more
+				continue
+			}
 			cls := mu.Label
 			if i := strings.Index(cls, ":"); i > 0 {
 				if j := strings.Index(cls[i+1:], ":"); j > 0 {
